@@ -62,7 +62,7 @@ def gen(prop, stream, tier, avoid):
             if op["nu"] == op["nv"]:
                 op["nv"] += 1
             op["w"] = rng.randint(2, 16) / 4.0
-        if k in ("set_ptsw", "set_pts", "set_weights"):
+        if k in ("set_ptsw", "set_pts", "set_weights", "helpers"):
             op["seq"] = rng.pick(["list", "list", "tuple"])          # sequence type the caller hands to the setter
             if k == "set_ptsw" and kind == "surface" and rng.chance(0.3):
                 op["via2d"] = True                                   # through the 2-dimensional view (surface.ctrlpts2d = rows)
@@ -281,10 +281,16 @@ def run(script, ctx):
         elif k == "helpers":
             c = g.compatibility
             q = pw()
-            checks = [("combine_ctrlpts_weights", c.combine_ctrlpts_weights(P, W), q),
-                      ("separate_ctrlpts_weights", list(c.separate_ctrlpts_weights(q)), [P, W]),
-                      ("generate_ctrlpts_weights", c.generate_ctrlpts_weights(q), [list(p) + [w] for p, w in zip(P, W)]),
-                      ("generate_ctrlptsw", c.generate_ctrlptsw([list(p) + [w] for p, w in zip(P, W)]), q),
+            if op.get("seq") == "tuple":
+                # the documented parameter type of the helpers is "list, tuple"
+                T = lambda x: tuple(tuple(p_) if isinstance(p_, list) else p_ for p_ in x)      # noqa: E731
+                ctx.probe("helpers_given_tuples")
+            else:
+                T = lambda x: x      # noqa: E731
+            checks = [("combine_ctrlpts_weights", c.combine_ctrlpts_weights(T(P), T(W)), q),
+                      ("separate_ctrlpts_weights", list(c.separate_ctrlpts_weights(T(q))), [P, W]),
+                      ("generate_ctrlpts_weights", c.generate_ctrlpts_weights(T(q)), [list(p) + [w] for p, w in zip(P, W)]),
+                      ("generate_ctrlptsw", c.generate_ctrlptsw(T([list(p) + [w] for p, w in zip(P, W)])), q),
                       ("generate_ctrlptsw o generate_ctrlpts_weights", c.generate_ctrlptsw(c.generate_ctrlpts_weights(q)), q),
                       ("combine o separate", c.combine_ctrlpts_weights(*c.separate_ctrlpts_weights(q)), q)]
             if nd == 2:
